@@ -256,8 +256,46 @@ def check_function(P, R, key, raw_params=(), raw_attrs=(), rule="DTYPE.raw"):
             continue
         kv = K.kind(val, st)
         n += 1
+        if kv == "float" and _dtype_guarded(P, f, st, base.id):
+            R.ok(rule + ".truncation", key, src(st)[:70], f"the statement runs only when `{base.id}.dtype` passed a test (the in-place form is chosen for floating-point buffers only)", st.lineno, nontrivial=False)
+            continue
         if kv == "float":
             R.violation(rule + ".truncation", key, src(st)[:70], f"`{base.id}` was allocated with the dtype of an input array; storing a floating-point value into it truncates the value when that input is integer-typed", st.lineno)
         else:
             R.ok(rule + ".truncation", key, src(st)[:70], f"value kind {kv}", st.lineno, nontrivial=False)
     return n
+
+
+def _tests_dtype_of(e, name):
+    """`e` contains a comparison / issubdtype test of `<name>.dtype`"""
+    for n in ast.walk(e):
+        if isinstance(n, ast.Compare):
+            for x in [n.left] + list(n.comparators):
+                if isinstance(x, ast.Attribute) and x.attr == "dtype" and isinstance(x.value, ast.Name) and x.value.id == name:
+                    return True
+                if isinstance(x, ast.Attribute) and x.attr in ("kind", "char") and isinstance(x.value, ast.Attribute) and x.value.attr == "dtype" and isinstance(x.value.value, ast.Name) and x.value.value.id == name:
+                    return True
+        if isinstance(n, ast.Call) and src(n.func).split(".")[-1] in ("issubdtype", "can_cast", "result_type") and any(isinstance(a, ast.Attribute) and a.attr == "dtype" and isinstance(a.value, ast.Name) and a.value.id == name for a in n.args):
+            return True
+    return False
+
+
+def _dtype_guarded(P, f, st, name):
+    """The statement is reached only through the true arm of a test on the buffer's dtype - spelled in place or in a helper of
+    the package that receives the buffer and tests the dtype of that parameter before returning True."""
+    from ..cfg import enclosing_guards
+
+    for test, pol_ in enclosing_guards(st):
+        if not pol_:
+            continue
+        if _tests_dtype_of(test, name):
+            return True
+        for c in [x for x in ast.walk(test) if isinstance(x, ast.Call)]:
+            for t_ in P.resolve_callee(c.func, f):
+                if t_[0] != "repo":
+                    continue
+                b = P.bind_args(t_[1], c.args, c.keywords)
+                for prm, a in b.items():
+                    if isinstance(a, ast.Name) and a.id == name and any(_tests_dtype_of(x, prm) for x in ast.walk(t_[1].node) if isinstance(x, (ast.If, ast.Assign, ast.Return, ast.BoolOp))):
+                        return True
+    return False
